@@ -295,8 +295,8 @@
     /// inline QoS), yields a submessage whose flags are the ones written - writer and reader agree on every flag bit.
     /// @props C08
     /// @kind proof
-    /// @tier quick
-    /// @timeout 1200
+    /// @tier thorough
+    /// @timeout 2400
     /// @fn <DataFragSubmessage as Submessage>::write_submessage_header_into_bytes, <DataSubmessage as Submessage>::write_submessage_header_into_bytes, SubmessageHeaderWrite::new, SubmessageHeaderRead::try_read_from_bytes, DataFragSubmessage::try_from_bytes, DataSubmessage::try_from_bytes
     #[cfg_attr(kani, kani::proof)]
     fn c08_data_frag_flags_agree() {
@@ -340,8 +340,8 @@
     /// C08: DATA flag agreement between writer and reader (same construction as for DATA_FRAG).
     /// @props C08
     /// @kind proof
-    /// @tier quick
-    /// @timeout 1200
+    /// @tier thorough
+    /// @timeout 2400
     /// @fn <DataSubmessage as Submessage>::write_submessage_header_into_bytes, SubmessageHeaderWrite::new, SubmessageHeaderRead::try_read_from_bytes, DataSubmessage::try_from_bytes
     #[cfg_attr(kani, kani::proof)]
     fn c08_data_flags_agree() {
